@@ -245,6 +245,9 @@ func (c *Ctx) Violation(sig string, replay interface{}, format string, args ...i
 	}
 	c.vioSigs[sig] = true
 	dir := filepath.Join(Root, "replays")
+	if d := os.Getenv("VERIF_REPLAY_DIR"); d != "" {
+		dir = d // seed sweeps keep their artefacts apart from the registered checks' ones
+	}
 	os.MkdirAll(dir, 0o755)
 	path := filepath.Join(dir, fmt.Sprintf("%s-%d.json", c.ID, len(c.vioSigs)))
 	b, _ := json.MarshalIndent(map[string]interface{}{"property": c.ID, "signature": sig, "message": msg, "replay": replay}, "", " ")
@@ -298,9 +301,13 @@ func (c *Ctx) Finish() {
 	v := c.violations
 	c.mu.Unlock()
 	if c.Replay == "" {
-		os.MkdirAll(filepath.Join(Root, "evidence"), 0o755)
+		evDir := filepath.Join(Root, "evidence")
+		if d := os.Getenv("VERIF_EVIDENCE_DIR"); d != "" {
+			evDir = d
+		}
+		os.MkdirAll(evDir, 0o755)
 		b, _ := json.MarshalIndent(ev, "", " ")
-		if err := os.WriteFile(filepath.Join(Root, "evidence", c.ID+".json"), b, 0o644); err != nil {
+		if err := os.WriteFile(filepath.Join(evDir, c.ID+".json"), b, 0o644); err != nil {
 			fmt.Fprintln(os.Stderr, "cannot write evidence:", err)
 			os.Exit(2)
 		}
